@@ -210,7 +210,10 @@ class ImageTransformer(SpatialTransformer):
     ) -> Union[Tensor, Tuple[Tensor, Tensor], Dict[str, Union[Tensor, Grid]]]:
         r"""Sample batch of images at spatially transformed target grid points."""
         grid: Tensor = self.grid_coords
-        grid = self._transform(grid, grid=True)
+        # The displacement field of a non-rigid transformation can only be added to (or resized to the shape of) the
+        # target grid points when these are the sampling points of its own domain, otherwise it has to be sampled
+        same_domain = self._target_grid.same_domain_as(self._transform.grid())
+        grid = self._transform(grid, grid=same_domain)
         if self._flip_coords:
             grid = grid.flip((-1,))
         return self._sample(grid, data, mask)
